@@ -22,7 +22,7 @@ mkdir -p $TB/obj $GEN/galois; cp $WT/libgalois/include/galois/config.h.in $GEN/g
 sed -e 's/@GALOIS_VERSION@/6.0.0/;s/@GALOIS_VERSION_MAJOR@/6/;s/@GALOIS_VERSION_MINOR@/0/;s/@GALOIS_VERSION_PATCH@/0/;s/@GALOIS_COPYRIGHT_YEAR@/2018/' $WT/libgalois/src/Version.cpp.in > $TB/Version.cpp
 (ls $WT/libgalois/src/*.cpp | grep -v HWTopoDarwin; echo $TB/Version.cpp) | xargs -P6 -I{} sh -c "g++ $FLAGS -c {} -o $TB/obj/\$(basename {} .cpp).o"
 LIB=$TB/libgalois.a; rm -f $LIB; ar rcs $LIB $TB/obj/*.o
-tests="barriers foreach oneach reduction sort gcollections gslist flatmap mem lock acquire twoleveliteratora move morphgraph graph"
+tests="barriers foreach oneach reduction sort gcollections gslist flatmap mem lock acquire twoleveliteratora move"
 echo $tests | tr ' ' '\n' | xargs -P6 -I{} sh -c "g++ $FLAGS $WT/libgalois/test/{}.cpp -o $TB/{} $LIB -lnuma -lrt -ldl -lm -lpthread 2>/dev/null"
 tfail=""
 for t in $tests; do for n in 1 2 4; do GALOIS_DO_NOT_BIND_THREADS=1 timeout 120 $TB/$t $n >/dev/null 2>&1 || tfail="$tfail $t($n)"; done; done
